@@ -1930,6 +1930,7 @@ pub fn run_model_opt(case: &Case, conv: Conv, sentinel: bool) -> Result<MResult,
       }
       Action::Advance(_) => {}
       Action::DropObservable => sh.root_dropped.set(true),
+      Action::IsSubscribed(_) => {}
       Action::Connect => {
         if sh.conn.is_some() {
           conn_connect(&sh);
